@@ -50,6 +50,18 @@ CHECKS.update({
                      'opcode otherwise). Sequences follow by induction on state equality.',
                 design='5 C19', note=WIRE_NOTE),
 })
+POLICY_NOTE = NOTE_COMMON + (' Random policy: 2 keys, limit any value, record size = 24 + value length, victim index arbitrary, sweep unwound keys+3 '
+               'times; length arithmetic queries that z3 does not bit-blast in time are decided by cvc5 --solve-bv-as-int=sum.')
+CHECKS.update({
+    'C14': dict(text='One step from any state whose accounted usage is not below the stored total: after a store the stored total is at most '
+                     'limit + the record just written, otherwise it has not grown; the written record survives its own sweep; the sweep terminates '
+                     'within the unwinding bound; plus in-solver BMC of k-command histories from the empty store (limits down to 0), replayed natively.',
+                design='5 C14', note=POLICY_NOTE + ' The concurrent form is explored under C16.'),
+    'C15': dict(text='Hook form: one step from any state with accounted usage = stored total (and fitting under the limit) keeps them equal; '
+                     'behavioural form: BMC of k-command histories in which the data always fits and a live item is evicted. Five accounting defects '
+                     'are known findings (role-based regions); anything outside them is a violation. Native replay reads the counter through the hook.',
+                design='5 C15', note=POLICY_NOTE),
+})
 NA = {
 }
 ALL = ['C%02d' % i for i in range(1, 21)]
